@@ -418,9 +418,51 @@ def traces(rep, n, depth, seed):
         shutil.rmtree(tmp, ignore_errors=True)
 
 
+def literal_history(rep):
+    """A formula is interpreted as it is written, whatever was parsed before it: the numbers 2 and 2.0 (equal,
+    but different literals) parsed one after the other, in both orders, keep their own type and lexeme."""
+    from formulae.expr import Literal
+    from formulae.parser import Parser
+    from formulae.scanner import Scanner
+
+    def literals(text):
+        found = []
+
+        def walk(node):
+            if isinstance(node, Literal):
+                found.append((type(node.value).__name__, node.value))
+            for v in vars(node).values() if hasattr(node, "__dict__") else []:
+                if isinstance(v, (list, tuple)):
+                    for it in v:
+                        if hasattr(it, "__dict__"):
+                            walk(it)
+                elif isinstance(v, dict):
+                    for it in v.values():
+                        if hasattr(it, "__dict__"):
+                            walk(it)
+                elif hasattr(v, "__dict__") and type(v).__module__.startswith("formulae"):
+                    walk(v)
+
+        walk(Parser(Scanner(text).scan()).parse())
+        return found
+
+    for first, second, want in (("y ~ f(x, 2)", "y ~ f(x, 2.0)", ("float", 2.0)), ("y ~ f(x, 7.0)", "y ~ f(x, 7)", ("int", 7)), ("y ~ {x ** 10}", "y ~ {x ** 10.0}", ("float", 10.0)),
+                                ("y ~ f(x, k=3.0)", "y ~ f(x, k=3)", ("int", 3)), ("y ~ f(x, 0)", "y ~ f(x, 0.0)", ("float", 0.0)), ("y ~ x", "y ~ f(x, 1.0)", ("float", 1.0))):
+        rep.cov["evaluations"] += 1
+        try:
+            literals(first)
+            got = literals(second)
+        except Exception as e:  # pylint: disable=broad-except
+            rep.violation({"clause": "literal_history_parse_failed", "site": "Parser"}, {"first": first, "second": second, "error": str(e)[:100]})
+            continue
+        if want not in got or (want[0] == "float" and ("int", int(want[1])) in [g for g in got if g != ("int", 1)]):
+            rep.violation({"clause": "literal_depends_on_what_was_parsed_before", "site": "Parser.primary"}, {"first": first, "second": second, "literals_of_second": got})
+
+
 def main(tier, seed):
     common.use_repo()
     rep = Report("C01", tier, seed)
+    literal_history(rep)
     rep.rule = (
         "S->C: every token string over the listed kinds up to the length bound (exhaustive), each rendered "
         "3 ways; non-trivial = distinct strings that are sentences of the grammar. C->S: generated sentences "
